@@ -7,6 +7,7 @@ import (
 
 	"github.com/scrapli/scrapligo/logging"
 	"github.com/scrapli/scrapligo/util"
+	"github.com/scrapli/scrapligo/util/simhook"
 )
 
 // InChannelAuthType is an enum-ish string that represents valid in channel auth flavors.
@@ -178,6 +179,9 @@ func (t *Transport) Open() error {
 // therefore we need a way to bypass the lock.
 func (t *Transport) Close(force bool) error {
 	if !force {
+		simhook.Acquire(t, "impl")
+		defer simhook.Release(t, "impl")
+
 		t.implLock.Lock()
 		defer t.implLock.Unlock()
 	}
@@ -191,6 +195,9 @@ func (t *Transport) IsAlive() bool {
 }
 
 func (t *Transport) read(n int) ([]byte, error) {
+	simhook.Acquire(t, "impl")
+	defer simhook.Release(t, "impl")
+
 	t.implLock.Lock()
 	defer t.implLock.Unlock()
 
